@@ -291,6 +291,20 @@ pub fn handle(op: &str, req: &Value) -> Option<Value> {
                         let _ = node.handle_message(&"p1".to_string(), &Message::RequestVote(rv));
                     },
                     "start_election" => node.start_election(),
+                    "append_entries_response" => {
+                        // a leader that learns of a higher term from a response
+                        node.start_election();
+                        node.become_leader();
+                        let t = node.current_term() + 1;
+                        let msg = AppendEntriesResponse { term: t, success: false, follower_id: "p1".into(), match_index: 0, used_fast_path: false };
+                        let _ = node.handle_message(&"p1".to_string(), &Message::AppendEntriesResponse(msg));
+                    },
+                    "request_vote_response" => {
+                        node.start_election();
+                        let t = node.current_term() + 1;
+                        let msg = RequestVoteResponse { term: t, vote_granted: false, voter_id: "p1".into() };
+                        let _ = node.handle_message(&"p1".to_string(), &Message::RequestVoteResponse(msg));
+                    },
                     _ => {
                         let ae = AppendEntries { term: m["ae.0"].as_u64().unwrap_or(0), leader_id: sid(&m["ae.1"]), prev_log_index: m["ae.2"].as_u64().unwrap_or(0),
                             prev_log_term: m["ae.3"].as_u64().unwrap_or(0), entries: vec![], leader_commit: m["ae.5"].as_u64().unwrap_or(0), block_embedding: None };
